@@ -21,7 +21,9 @@ type nilShape struct {
 	apply func(root reflect.Value) // root: pointer to a freshly built struct
 }
 
-func isMsgPtr(t reflect.Type) bool { return t.Kind() == reflect.Ptr && t.Elem().Kind() == reflect.Struct }
+func isMsgPtr(t reflect.Type) bool {
+	return t.Kind() == reflect.Ptr && t.Elem().Kind() == reflect.Struct
+}
 
 func sortedKeys(m reflect.Value) []reflect.Value {
 	ks := m.MapKeys()
